@@ -217,7 +217,7 @@ pub fn cases(tier: Tier) -> Vec<GCase> {
 
 pub fn main(tier: Tier, replay: Option<serde_json::Value>) -> i32 {
     let mut run = Run::new("C11", tier, "model_checking");
-    run.rule = "cases = (gadget, N, value); honest assignment + every bound-1 deviation + gadget-aware alias deviations (truncate: the (low', high') split of x + r on every ordered allocation pair; decomposition: the bit vectors of every other integer representative x + k r < 2^N, the complete adversary space given the boolean rows) re-run through the real generator and decided by M1; predicate: truncate always satisfiable and returns canonical(x) mod 2^N, decomposition satisfiable iff canonical(x) < 2^N and returns exactly its bits".into();
+    run.rule = "cases = (gadget, N, value); honest assignment + every bound-1 deviation + gadget-aware alias deviations (truncate: the (low', high') split of x + r on every ordered allocation pair; decomposition: the bit vectors of every other integer representative x + k r < 2^N, the complete adversary space given the boolean rows) re-run through the real generator and decided by M1; predicate: truncate always satisfiable and returns canonical(x) mod 2^N, decomposition satisfiable iff canonical(x) < 2^N and returns exactly its bits; also out-of-range splits (low +- 2^N, high -+ 1), constant witnesses ZERO / ONE as inputs, inputs range-checked beforehand, a second application to the same witness".into();
     let cs = cases(tier);
     let cache = ConfirmCache::new(crate::setup::pp(1 << 11));
     if let Some(r) = replay {
